@@ -771,14 +771,10 @@ def replay_input(check, inp):
 
 
 def classify(pc, r):
-    if pc.name == "coinbase_unspent" and r.get("kind") == "coinbase-input-valid-with-missing-unspent":
-        return "coinbase-recorded-unspent"
     return None
 
 
-KNOWN_REPLAYS = {
-    "coinbase-recorded-unspent": lambda: chk_coinbase_unspent("51", "00"),
-}
+KNOWN_REPLAYS = {}
 
 
 def search(rng, tier, disagreements, known_ids):
